@@ -172,6 +172,65 @@ def globals_obligations(S):
     S.extra_cov["nondeterminism_sources_found"] = nondet
 
 
+def class_state_obligations(S):
+    """No mutable container bound at CLASS level is mutated in place through an instance: such a
+    list / dict / set is one object shared by every instance in the interpreter, so what one build
+    appends to it is seen by the next (a second grid generated in the same process would depend
+    on the first).  Decided over the AST of the whole package: for every class-level name bound to
+    a list / dict / set display, comprehension or constructor call, there is either no in-place
+    mutation `<obj>.<name>.<mutator>(...)`, `<obj>.<name>[...] = ...`, `<obj>.<name> += ...`
+    anywhere in the package, or every class that declares it (and each subclass that does not
+    shadow it) assigns a fresh `self.<name> = ...` in its own __init__ before use."""
+    import hypnotoad
+
+    root = os.path.dirname(hypnotoad.__file__)
+    MUT = {"append", "extend", "insert", "update", "setdefault", "add", "pop", "popitem", "clear", "remove", "discard", "sort", "reverse", "appendleft"}
+    ctor = {"list", "dict", "set", "OrderedDict", "defaultdict", "deque", "Counter"}
+    trees = {}
+    for dirpath, _, files in os.walk(root):
+        for fn in files:
+            if fn.endswith(".py") and "test" not in fn:
+                path = os.path.join(dirpath, fn)
+                trees[os.path.relpath(path, root)] = ast.parse(open(path).read())
+    declared = {}  # name -> [(file, class, lineno)]
+    init_assigns = {}  # class -> set of self.X assigned in __init__
+    n_classes = 0
+    for rel, tree in trees.items():
+        for c in [x for x in ast.walk(tree) if isinstance(x, ast.ClassDef)]:
+            n_classes += 1
+            for st in c.body:
+                if isinstance(st, (ast.Assign, ast.AnnAssign)) and st.value is not None:
+                    v = st.value
+                    mutable = isinstance(v, (ast.List, ast.Dict, ast.Set, ast.ListComp, ast.DictComp, ast.SetComp)) or (isinstance(v, ast.Call) and isinstance(v.func, (ast.Name, ast.Attribute)) and ast.unparse(v.func).split(".")[-1] in ctor)
+                    if mutable:
+                        ts = st.targets if isinstance(st, ast.Assign) else [st.target]
+                        for t in ts:
+                            if isinstance(t, ast.Name):
+                                declared.setdefault(t.id, []).append((rel, c.name, st.lineno))
+            for m in c.body:
+                if isinstance(m, ast.FunctionDef) and m.name == "__init__":
+                    init_assigns[c.name] = {t.attr for x in ast.walk(m) if isinstance(x, ast.Assign) for t in x.targets if isinstance(t, ast.Attribute) and isinstance(t.value, ast.Name) and t.value.id == "self"}
+    bad = []
+    for rel, tree in trees.items():
+        for node in ast.walk(tree):
+            hit = None
+            if isinstance(node, ast.Call) and isinstance(node.func, ast.Attribute) and node.func.attr in MUT and isinstance(node.func.value, ast.Attribute) and node.func.value.attr in declared:
+                hit = node.func.value
+            elif isinstance(node, (ast.Assign, ast.AugAssign, ast.Delete)):
+                ts = node.targets if isinstance(node, (ast.Assign, ast.Delete)) else [node.target]
+                for t in ts:
+                    if isinstance(t, ast.Subscript) and isinstance(t.value, ast.Attribute) and t.value.attr in declared:
+                        hit = t.value
+                    if isinstance(node, ast.AugAssign) and isinstance(t, ast.Attribute) and t.attr in declared:
+                        hit = t
+            if hit is None:
+                continue
+            for drel, cname, lineno in declared[hit.attr]:
+                if hit.attr not in init_assigns.get(cname, set()):
+                    bad.append("%s:%d in-place mutation of %s; `%s` is a mutable container bound at class level (%s, class %s, line %d) and %s.__init__ does not rebind it per instance" % (rel, node.lineno, ast.unparse(hit), hit.attr, drel, cname, lineno, cname))
+    S.static_vc("frame", "hypnotoad.core.mesh:BoutMesh.__init__", "no class-level mutable container is mutated in place through an instance without being rebound per instance in __init__ (%d classes, %d class-level containers: %s)" % (n_classes, len(declared), sorted(declared)[:8]), not bad, detail=repr(bad[:4]), kind="ast-frame", model=dict(findings=bad[:4]) if bad else None)
+
+
 def native_frame(S):
     """The real TokamakEquilibrium constructor must leave the caller's arrays untouched, and a
     second build from the same arrays must give the same profiles (every sign/scale option,
@@ -317,6 +376,7 @@ def build(S):
     S.assume("bounded: determinism and regeneration are executed for one configuration per tier entry; floating-point reproducibility across machines is out of scope")
     frame_obligations(S)
     globals_obligations(S)
+    class_state_obligations(S)
     native_frame(S)
 
 
